@@ -274,11 +274,12 @@ class PropertyDescriptor(Symbol):
                 for v in self._inferred_values_of(obj)
                 if not any(v is new_value for new_value in new_values)
             ]
-            attr._clear()
-            for v in new_values:
-                attr._add_item(v, inferred=False)
-            for v in inferred_values:
-                attr._add_item(v, inferred=False, add_relation_to_the_graph=False)
+            with attr._written_values_first():
+                attr._clear()
+                for v in new_values:
+                    attr._add_item(v, inferred=False)
+                for v in inferred_values:
+                    attr._add_item(v, inferred=False, add_relation_to_the_graph=False)
         else:
             setattr(obj, self.private_attr_name, value)
             self.add_relation_to_the_graph(obj, value)
